@@ -64,6 +64,17 @@ def fault_bases(tier):
                           {"a": "eval_commit", "ref": last_q(casc)}]
             steps += [{"a": "decline_open"}, {"a": "eval_pr", "p": 1}, {"a": "eval_pr", "p": 2}]
             out.append(dict(id='fbase/%s/%s' % (casc, mode), world=world(casc, mode), steps=steps))
+    # an administrative job with queued work: a newest development branch is created (the job pushes the
+    # branch, then rebuilds the queues), a queue reset, an old branch is deleted
+    for newb, lastq in (('development/11.0', 'q/11.0'),):
+        steps = [open_pr(1, 'development/4.3'), {"a": "eval_pr", "p": 1}] + approve(1) + [
+                 {"a": "report_pr", "p": 1, "status": "SUCCESSFUL"}, {"a": "eval_pr", "p": 1},
+                 {"a": "api", "kind": "CreateBranch", "branch": newb}, {"a": "drain"},
+                 {"a": "report_pr", "p": 1, "status": "SUCCESSFUL"}, {"a": "eval_pr", "p": 1},
+                 {"a": "report_queue", "status": "SUCCESSFUL"}, {"a": "eval_commit", "ref": lastq},
+                 {"a": "api", "kind": "DeleteBranch", "branch": "development/4.3"},
+                 {"a": "eval_pr", "p": 1}]
+        out.append(dict(id='fbase/admin/B3/queue', world=world('B3', 'queue'), steps=steps))
     return out
 
 
@@ -115,7 +126,9 @@ def make_variants(base, out, rng, tier):
         steps += [dict(s) for s in base['steps'][si + 1:]]
         steps.append({"a": "final_check", "expect": out['dtrees'][-1] if kind != 'third' else None})
         res.append(dict(id='%s|%s|step%d|%s' % (base['id'], kind, si, json.dumps(fault, sort_keys=True)),
-                        world=base['world'], steps=steps, fault=dict(kind=kind, **fault)))
+                        world=base['world'], steps=steps, fault=dict(kind=kind, **fault),
+                        # interrupted administrative jobs are few: always run (quick tier too)
+                        core=(base['steps'][si]['a'] == 'api' and kind in ('crash', 'reject'))))
     return res
 
 
@@ -213,7 +226,8 @@ def _sysrun(tier, seed, log=print):
             variants += make_variants(b, o, rng, tier)
         nvar_all = len(variants)
         if tier == 'quick':
-            variants = _sample(variants, rng, 84, key=lambda v: v['fault']['kind'])
+            variants = [v for v in variants if v.get('core')] + \
+                _sample([v for v in variants if not v.get('core')], rng, 84, key=lambda v: v['fault']['kind'])
         var_outs = explore.run_scenarios(variants, scratch)
         for v, o in zip(variants, var_outs):
             o['fault'] = v['fault']
